@@ -80,7 +80,7 @@ def warm(variants):
 # ----------------------------------------------------------------------------- generators
 def gen_series(rng, n, kind=None, lim=10000):
     """Integer-valued series (the accessors' domain is int16) with |values| <= lim."""
-    kind = kind or rng.choice(["noise", "season", "walk", "steps", "spiky", "smallrange", "neg"])
+    kind = kind or rng.choice(["noise", "season", "walk", "steps", "spiky", "smallrange", "neg", "flatspikes"])
     t = np.arange(n)
     if kind == "noise":
         y = rng.integers(-lim, lim + 1, n)
@@ -95,6 +95,10 @@ def gen_series(rng, n, kind=None, lim=10000):
     elif kind == "spiky":
         y = np.full(n, float(rng.integers(-lim // 2, lim // 2))) + rng.integers(-3, 4, n)
         k = max(1, n // 10)
+        y[rng.choice(n, k, replace=False)] += rng.integers(-lim // 3, lim // 3, k)
+    elif kind == "flatspikes":  # exactly flat with a few spikes: more than half of all residuals are equal
+        y = np.full(n, float(rng.integers(-lim // 2, lim // 2)))
+        k = max(1, n // 12)
         y[rng.choice(n, k, replace=False)] += rng.integers(-lim // 3, lim // 3, k)
     elif kind == "smallrange":
         y = rng.integers(0, 8, n) + rng.integers(-100, 100)
